@@ -256,6 +256,14 @@ func taskrunEngine(raw json.RawMessage) (res interface{}, err error) {
 				}
 				sd := scheduler.NewScheduler(tr)
 				sd.VerifSetPause(2 * time.Millisecond)
+				if st.AfterMs > 0 { // Scheduler.Cancel from another goroutine, AfterMs into the run
+					cancelWg.Add(1)
+					go func(ms int) {
+						defer cancelWg.Done()
+						time.Sleep(time.Duration(ms) * time.Millisecond)
+						sd.Cancel()
+					}(st.AfterMs)
+				}
 				e = sd.Schedule(g)
 				fin := []int{}
 				mu.Lock()
